@@ -404,6 +404,87 @@ doneB:
     return nontrivial;
 }
 
+
+/* ---------- vocabularies that outgrow their first allocations ----------
+ * V real words on the arcs of a 2-state grammar, silence and a second filler added before or after A alternates (fsg_model_add_alt).
+ * The per-word flag sets (filler, alternate) are reallocated as the vocabulary grows; every word must keep its class, and the
+ * arcs of real words must be exactly the V base arcs plus the A alternate arcs. */
+static int
+run_bigvocab(int V, int A, int silfirst)
+{
+    char cd[120], w[24], w2[24];
+    fsg_model_t *fsg = fsg_model_init("big", lmath, 1.0f, 2);
+    int i, rc = 1, nreal = 0, nfill = 0;
+    snprintf(cd, sizeof cd, "bigvocab V=%d A=%d silfirst=%d", V, A, silfirst);
+    mc_set_current(cd);
+    fsg->start_state = 0;
+    fsg->final_state = 1;
+    for (i = 0; i < V; i++) {
+        snprintf(w, sizeof w, "w%d", i);
+        fsg_model_trans_add(fsg, 0, 1, -10, fsg_model_word_add(fsg, w));
+    }
+    if (silfirst) {
+        fsg_model_add_silence(fsg, "<sil>", -1, 0.1f);
+        fsg_model_add_silence(fsg, "[NOISE]", -1, 0.05f);
+    }
+    for (i = 0; i < A && i < V; i++) {
+        snprintf(w, sizeof w, "w%d", i);
+        snprintf(w2, sizeof w2, "w%d(2)", i);
+        if (fsg_model_add_alt(fsg, w, w2) != 1) {
+            mc_viol("C13/alt-arc-count", cd, "%s: add_alt(%s, %s) did not add exactly one arc", cd, w, w2);
+            rc = -1;
+            goto done;
+        }
+    }
+    if (!silfirst) {
+        fsg_model_add_silence(fsg, "<sil>", -1, 0.1f);
+        fsg_model_add_silence(fsg, "[NOISE]", -1, 0.05f);
+    }
+    for (i = 0; i < fsg_model_n_word(fsg); i++) {
+        const char *ws = fsg_model_word_str(fsg, i);
+        int want_filler = !strcmp(ws, "<sil>") || !strcmp(ws, "[NOISE]"), want_alt = strstr(ws, "(2)") != NULL;
+        if (!!fsg_model_is_filler(fsg, i) != want_filler) {
+            mc_viol(want_filler ? "C13/silence-not-marked-filler" : "C13/word-marked-filler", cd, "%s: word %d (%s) %s marked as filler", cd, i, ws, want_filler ? "is no longer" : "is");
+            rc = -1;
+            goto done;
+        }
+        if (!!fsg_model_is_alt(fsg, i) != want_alt) {
+            mc_viol("C13/alt-flag", cd, "%s: word %d (%s) %s marked as alternate", cd, i, ws, want_alt ? "is not" : "is");
+            rc = -1;
+            goto done;
+        }
+    }
+    for (i = 0; i < 2; i++) {
+        fsg_arciter_t *it;
+        for (it = fsg_model_arcs(fsg, i); it; it = fsg_arciter_next(it)) {
+            fsg_link_t *l = fsg_arciter_get(it);
+            if (fsg_link_wid(l) < 0)
+                continue;
+            if (fsg_model_is_filler(fsg, fsg_link_wid(l))) {
+                nfill++;
+                if (fsg_link_from_state(l) != fsg_link_to_state(l)) {
+                    mc_viol("C13/silence-arc-wrong", cd, "%s: filler arc %d>%d is not a self-loop", cd, fsg_link_from_state(l), fsg_link_to_state(l));
+                    rc = -1;
+                }
+            } else {
+                nreal++;
+                if (fsg_link_from_state(l) != 0 || fsg_link_to_state(l) != 1) {
+                    mc_viol("C13/silence-changes-grammar", cd, "%s: an arc %d>%d with the real word %s: the sequences of real words the grammar accepts changed", cd,
+                            fsg_link_from_state(l), fsg_link_to_state(l), fsg_model_word_str(fsg, fsg_link_wid(l)));
+                    rc = -1;
+                }
+            }
+        }
+    }
+    if (rc > 0 && (nreal != V + (A < V ? A : V) || nfill != 4)) {
+        mc_viol("C13/silence-changes-grammar", cd, "%s: %d arcs of real words (expected %d) and %d filler self-loops (expected 4)", cd, nreal, V + (A < V ? A : V), nfill);
+        rc = -1;
+    }
+done:
+    fsg_model_free(fsg);
+    return rc;
+}
+
 int
 main(int argc, char **argv)
 {
@@ -418,11 +499,40 @@ main(int argc, char **argv)
     lmath = logmath_init(1.0001, 0, 1);
     sscanf(mc_arg(argc, argv, "--shard", "0/1"), "%d/%d", &shard, &nshard);
     if (cas) {
+        int V, A, sf;
+        if (sscanf(cas, "bigvocab V=%d A=%d silfirst=%d", &V, &A, &sf) == 3) {
+            run_bigvocab(V, A, sf);
+            mc_finish();
+            return 0;
+        }
         if (spec_parse(cas, &s) < 0)
             return 2;
         run_spec(&s);
         mc_finish();
         return 0;
+    }
+    {
+        int V, A, sf;
+        if (cas && sscanf(cas, "bigvocab V=%d A=%d silfirst=%d", &V, &A, &sf) == 3) {
+            run_bigvocab(V, A, sf);
+            mc_finish();
+            return 0;
+        }
+        if (strcmp(mc_arg(argc, argv, "--family", "all"), "bigvocab") == 0) {
+            for (V = 5; V <= 70; V++)
+                for (A = 0; A <= 30; A++)
+                    for (sf = 0; sf < 2; sf++) {
+                        int rc_ = run_bigvocab(V, A, sf);
+                        evals++;
+                        nontriv += rc_ > 0;
+                    }
+            mc_sample("bigvocab: V in 5..70 real words x A in 0..30 alternates x fillers before/after the alternates");
+            mc_stat("evaluations", evals);
+            mc_stat("nontrivial", nontriv);
+            mc_flag("exhaustive", 1);
+            mc_finish();
+            return 0;
+        }
     }
     if (strcmp(mc_arg(argc, argv, "--family", "all"), "eps4") == 0) {
         /* the null-transition family: 4 states, every ordered pair of distinct states carries no null arc, one of
